@@ -333,7 +333,7 @@ class PiecewiseConstantBirthDeath(Distribution):
 
         if serially_sampled:
             indices_y = torch.clamp(
-                torch.searchsorted(times, y, right=True) - 1, max=m - 1
+                torch.searchsorted(times, y, right=False) - 1, max=m - 1
             )
             # true if the node of the given index occurs at the time of a
             # rho-sampling event
